@@ -180,6 +180,16 @@ fn main() {
         ev_arith(&mut t, &a, &comp, "random");
         let comp1 = amount_to_digits((Amount::MAX - digits_to_amount(&a)).saturating_add(Amount::from(1u64)));
         ev_arith(&mut t, &a, &comp1, "random");
+        // pairs whose sum / difference crosses a machine-word boundary inside the range (2^64, 2^128, 2^192)
+        for k in [64usize, 128, 192] {
+            let edge = Amount::from(1u64) << k;
+            let lo = digits_to_amount(&a) % edge;
+            for delta in [0u64, 1] {
+                let other = (edge - lo).saturating_sub(Amount::from(delta));
+                ev_arith(&mut t, &amount_to_digits(lo), &amount_to_digits(other), "random");
+                ev_arith(&mut t, &amount_to_digits(edge.saturating_add(lo)), &amount_to_digits(lo.saturating_add(Amount::from(delta))), "random");
+            }
+        }
         // random decimal string built from an amount with a random presentation
         let s = dstr(&a);
         let cut = r.gen_range(0..=s.len());
